@@ -40,7 +40,7 @@ def reshapeLadder : List String := ["Lt 2 raise:ValueError", "Eq 2 returncoord[n
 /-- `as_matrix`: identity size, source of the model count; `_3d_identity`: dtype of the zeros, diagonal value 1. -/
 def matrixSize : Nat := 4
 def matrixCount : String := "self.rotation.shape[0]"
-def identityDtype : String := "np.float32"
+def identityDtype : String := "float"
 /-- `superimpose`: signature, mask application, what the centroids are taken of, centring, rotation arguments, result. -/
 def supParams : List String := ["fixed", "mobile", "atom_mask"]
 def supDefaults : List (String × String) := [("atom_mask", "None")]
